@@ -194,3 +194,96 @@ func TestFingerprintFollowsCanon(t *testing.T) {
 		t.Fatal("schema change must change the state")
 	}
 }
+
+// The lookups of update.go / rotate.go in several spellings that mean the same must parse and give the same answer.
+func TestSelectSpellings(t *testing.T) {
+	ctx := context.Background()
+	st := NewState([]string{"d"}, []string{"c1"})
+	c := NewProc(st).Connect("d")
+	for _, q := range []string{
+		"create table ver (k UInt64, ver UInt64) engine = ReplacingMergeTree(ver) order by k",
+		"CREATE TABLE ver_dist (\n k UInt64,\n ver UInt64\n) ENGINE = Distributed('c1', 'd', 'ver', rand())",
+		"CREATE TABLE settings (fingerprint UInt64, type String, name String, value String, inserted_at DateTime64(9, 'UTC')) ENGINE = ReplacingMergeTree(inserted_at) ORDER BY fingerprint",
+		"INSERT INTO ver (k, ver) VALUES (1, 7)", "INSERT INTO ver (ver, k) VALUES (9, 2)",
+		"insert into settings (fingerprint, type, name, value, inserted_at) values (5, 'rotate', 'a', 'x', now())",
+		"INSERT INTO settings (fingerprint, type, name, value, inserted_at)\nVALUES (5, 'rotate', 'a', 'y', NOW())",
+		"INSERT INTO settings (fingerprint, type, name, value, inserted_at) VALUES (6, 'rotate', '', 'z', NOW())",
+	} {
+		if err := c.Exec(ctx, q); err != nil {
+			t.Fatalf("%s: %v", q, err)
+		}
+	}
+	u64 := func(q string, args ...any) uint64 {
+		t.Helper()
+		rows, err := c.Query(ctx, q, args...)
+		if err != nil {
+			t.Fatalf("%s: %v", q, err)
+		}
+		var v uint64
+		n := 0
+		for rows.Next() {
+			n++
+			if err := rows.Scan(&v); err != nil {
+				t.Fatal(err)
+			}
+		}
+		if n != 1 {
+			t.Fatalf("%s: %d rows", q, n)
+		}
+		return v
+	}
+	for _, q := range []string{
+		"SELECT max(ver) as ver FROM ver WHERE k = $1 FORMAT JSON",
+		"SELECT max(ver) AS ver FROM ver_dist WHERE (k = $1) FORMAT JSON",
+		"select MAX(ver) v\nfrom d.ver -- the version\nwhere ((k = $1)) ;",
+		"SELECT max(ver) FROM ver WHERE $1 = k",
+	} {
+		if v := u64(q, int64(1)); v != 7 {
+			t.Fatalf("%s: %d", q, v)
+		}
+		if v := u64(q, int64(3)); v != 0 {
+			t.Fatalf("%s (no rows): %d", q, v)
+		}
+	}
+	if v := u64("SELECT count(1) FROM ver"); v != 2 {
+		t.Fatal(v)
+	}
+	str := func(q string, args ...any) []string {
+		t.Helper()
+		rows, err := c.Query(ctx, q, args...)
+		if err != nil {
+			t.Fatalf("%s: %v", q, err)
+		}
+		var out []string
+		for rows.Next() {
+			var v string
+			if err := rows.Scan(&v); err != nil {
+				t.Fatal(err)
+			}
+			out = append(out, v)
+		}
+		return out
+	}
+	for _, q := range []string{
+		"SELECT argMax(value, inserted_at) as _value FROM settings WHERE fingerprint = $1 \nGROUP BY fingerprint HAVING argMax(name, inserted_at) != ''",
+		"SELECT argMax(value, inserted_at) AS setting_value FROM settings WHERE (fingerprint = $1) GROUP BY fingerprint HAVING argMax(name, inserted_at) <> ''",
+		"select argmax(value, inserted_at) from settings where fingerprint = $1 group by (fingerprint) having ('' != argMax(name, inserted_at))",
+	} {
+		if v := str(q, uint32(5)); len(v) != 1 || v[0] != "y" {
+			t.Fatalf("%s: %v", q, v)
+		}
+		if v := str(q, uint32(6)); len(v) != 0 { // latest name is empty
+			t.Fatalf("%s: %v", q, v)
+		}
+		if v := str(q, uint32(7)); len(v) != 0 {
+			t.Fatalf("%s: %v", q, v)
+		}
+	}
+	p := NewProc(st)
+	if _, err := p.Connect("d").Query(ctx, "SELECT value FROM settings ORDER BY value"); !errors.Is(err, ErrUnknownShape) || p.HarnessErr == nil {
+		t.Fatalf("ORDER BY must stay an unknown shape, got %v", err)
+	}
+	if err := NewProc(st).Connect("d").Exec(ctx, "ALTER TABLE settings MODIFY SETTING index_granularity = 8192, merge_with_ttl_timeout = 3600, ttl_only_drop_parts = 1"); err != nil {
+		t.Fatal(err)
+	}
+}
